@@ -204,6 +204,7 @@ func verifCheckExpect(tag string, c *Context, e verifExpect, x *Decimal, d *Deci
 		return
 	}
 	verifAssert(res&verifExcFlags == e.flags, "C08."+tag+".flags")
+	verifAssert(res&verifExcFlags == e.flags, "C02."+tag+".exception_flags")
 	switch e.kind {
 	case 1:
 		verifAssert(d.Form == NaN, "C08."+tag+".nan")
